@@ -780,6 +780,10 @@ def r17(e: Engine, rep: Report):
         # whether that path exists depends on values
         op = common.opaque_tests(w, derived, content) if w else []
         if op:
+            # (tests the values on this very path settle are evidence)
+            dec = common.decided_tests(e, g, w)
+            op = [t for t in op if t not in dec]
+        if op:
             rep.error('R1.7 cannot be decided at %s: the path to this site '
                       'depends on `%s`, computed from the result'
                       % (n.loc(), ast.unparse(op[0].ast)))
@@ -809,6 +813,37 @@ def r17(e: Engine, rep: Report):
                   'result is neither None, a Reply nor a permanent '
                   'failure: it is dropped from every later attempt',
                   'guarded by None / Reply / PermanentRelayError')
+        elif nm == 'append' and isinstance(n.ast.func.value, ast.Subscript) \
+                and isinstance(n.ast.func.value.value, ast.Name) and \
+                isinstance(n.ast.func.value.slice, ast.Name) and \
+                common.local_dict_keys(n.frame.ctx.func,
+                                       n.ast.func.value.value.id):
+            # failures[kind].append(...): one list per key of a local dict,
+            # the key being the tag the result was mapped to
+            dname = n.ast.func.value.value.id
+            kq = path_of(n.ast.func.value.slice, n.frame)
+            nulc = common.Nullness(g, e)
+            for kx in common.local_dict_keys(n.frame.ctx.func, dname):
+                kv = nulc._const(kx, n.frame)
+                if not (isinstance(kv, tuple) and kv[0] == 'c'):
+                    continue
+                which = 'temp' if 'temp' in kv[1].lower() else (
+                    'perm' if 'perm' in kv[1].lower() else None)
+                if which is None:
+                    continue
+                nsites += 1
+                kinds.add(which)
+                rep.evaluations += 1
+                cls = 'TransientRelayError' if which == 'temp' \
+                    else 'PermanentRelayError'
+                lname = '%s[%s]' % (dname, kv[1])
+                w = common.unguarded_path(
+                    e, g, n, [(True, 'isinstance(%s, %s)' % (rv, cls))],
+                    start=loop,
+                    site_ok=lambda get, kq=kq, kv=kv: get(kq) in (None, kv))
+                judge(n, w, '%s collects only %s results' % (lname, cls),
+                      'a result that is not a %s is filed under %s'
+                      % (cls, lname), 'guarded by isinstance(..., %s)' % cls)
         elif nm == 'append' and ('temp' in recv or 'perm' in recv):
             nsites += 1
             kinds.add('temp' if 'temp' in recv else 'perm')
@@ -856,6 +891,59 @@ def r18(e: Engine, rep: Report):
                 and isinstance(n.ast.func.value, ast.Name):
             filled[path_of(n.ast.func.value, n.frame)] = \
                 n.ast.func.value.id
+    # lists kept in a local dict under the tag of the result
+    # (`failed[kind].append(...)`): each one is looked at under the name it
+    # is handed on with (`return settled, failed['permfail'], ...` taken
+    # apart by the caller, or `permfails = failed['permfail']`)
+    for n in g.nodes:
+        if not (n.kind == 'call' and e.call_name(n) == 'append' and any(
+                sc.kind == 'loop' and sc.ast is loop.ast for sc in n.scopes)
+                and isinstance(n.ast.func.value, ast.Subscript) and
+                isinstance(n.ast.func.value.value, ast.Name)):
+            continue
+        dname = n.ast.func.value.value.id
+        keys = common.local_dict_keys(n.frame.ctx.func, dname)
+        if not keys:
+            continue
+        nulc = common.Nullness(g, e)
+        want = {nulc._const(k, n.frame) for k in keys}
+        got = {}
+
+        def key_of(x, fr, dname=dname, nulc=nulc):
+            if isinstance(x, ast.Subscript) and \
+                    isinstance(x.value, ast.Name) and x.value.id == dname:
+                return nulc._const(x.slice, fr)
+            return None
+        for m in g.of_kind('stmt'):
+            if m.frame is not n.frame:
+                continue
+            if isinstance(m.ast, ast.Assign) and len(m.ast.targets) == 1 \
+                    and isinstance(m.ast.targets[0], ast.Name) and \
+                    key_of(m.ast.value, m.frame) is not None:
+                got[key_of(m.ast.value, m.frame)] = (
+                    path_of(m.ast.targets[0], m.frame),
+                    m.ast.targets[0].id)
+            if isinstance(m.ast, ast.Return) and \
+                    isinstance(m.ast.value, ast.Tuple) and \
+                    m.frame.call is not None:
+                for c in g.of_kind('stmt'):
+                    if isinstance(c.ast, ast.Assign) and \
+                            c.ast.value is m.frame.call and \
+                            len(c.ast.targets) == 1 and \
+                            isinstance(c.ast.targets[0], ast.Tuple) and \
+                            len(c.ast.targets[0].elts) == \
+                            len(m.ast.value.elts):
+                        for tv, rv2 in zip(c.ast.targets[0].elts,
+                                           m.ast.value.elts):
+                            kk = key_of(rv2, m.frame)
+                            if kk is not None and isinstance(tv, ast.Name):
+                                got[kk] = (path_of(tv, c.frame), tv.id)
+        if None in want or set(got) != want:
+            rep.error('cannot follow the lists of `%s` out of the '
+                      'classification loop (R1.8)' % dname)
+            return
+        for kk, (p, nm) in got.items():
+            filled[p] = nm
     done = [s for l, s in loop.succ if l == 'done']
     if not done or not filled:
         rep.error('anchor vanished: failure lists of _handle_partial_relay')
